@@ -134,6 +134,79 @@ func doneFields(c *Ctx, m *multiModel) map[string]bool {
 	return out
 }
 
+// cbInvocation is a place in fn where the callback held in field T.field is run: a dynamic call of the loaded field value, or a
+// call of a small helper that is handed the field's address and calls through it. cleared tells whether the field is reset to
+// nil before the callback runs (so it cannot run twice).
+type cbInvocation struct {
+	at      ssa.Instruction
+	cleared bool
+}
+
+func cbInvocations(c *Ctx, fn *ssa.Function, T, field string) []cbInvocation {
+	p := c.P
+	var out []cbInvocation
+	for _, cl := range eng.Calls(fn) {
+		call, ok := cl.(*ssa.Call)
+		if !ok || call.Call.IsInvoke() {
+			continue
+		}
+		if call.Call.StaticCallee() == nil {
+			if _, isB := call.Call.Value.(*ssa.Builtin); isB {
+				continue
+			}
+			if !p.AnyFrom(call.Call.Value, eng.Plain, func(v ssa.Value) bool { return eng.IsFieldLoad(v, T, field) }) {
+				continue
+			}
+			cleared := false
+			for _, b := range fn.Blocks {
+				for _, ins := range b.Instrs {
+					if st, ok := isStoreToField(ins, T, field); ok && eng.IsZeroValue(st.Val) && eng.Dominates(st, call) {
+						cleared = true
+					}
+				}
+			}
+			out = append(out, cbInvocation{call, cleared})
+			continue
+		}
+		// helper(&x.field): the helper loads the function through its pointer parameter and calls it
+		h := call.Call.StaticCallee()
+		if !p.InRepo(h) || len(h.Blocks) == 0 {
+			continue
+		}
+		for i, a := range call.Call.Args {
+			fa, ok := a.(*ssa.FieldAddr)
+			if !ok || i >= len(h.Params) {
+				continue
+			}
+			if t, f, _, ok := eng.FieldOf(fa); !ok || t != T || f != field {
+				continue
+			}
+			pa := h.Params[i]
+			var dyn *ssa.Call
+			for _, hc := range eng.Calls(h) {
+				if d, ok := hc.(*ssa.Call); ok && !d.Call.IsInvoke() && d.Call.StaticCallee() == nil {
+					if u, ok := d.Call.Value.(*ssa.UnOp); ok && u.Op == token.MUL && u.X == ssa.Value(pa) {
+						dyn = d
+					}
+				}
+			}
+			if dyn == nil {
+				continue
+			}
+			cleared := false
+			for _, b := range h.Blocks {
+				for _, ins := range b.Instrs {
+					if st, ok := ins.(*ssa.Store); ok && st.Addr == ssa.Value(pa) && eng.IsZeroValue(st.Val) && eng.Dominates(st, dyn) {
+						cleared = true
+					}
+				}
+			}
+			out = append(out, cbInvocation{call, cleared})
+		}
+	}
+	return out
+}
+
 func ruleLastClose(c *Ctx, m *multiModel) {
 	p := c.P
 	done := doneFields(c, m)
@@ -161,28 +234,12 @@ func ruleLastClose(c *Ctx, m *multiModel) {
 		}
 		// callback at most once, only at zero
 		if m.cbField != "" {
-			n := 0
-			for _, cl := range eng.Calls(r) {
-				call, ok := cl.(*ssa.Call)
-				if !ok || call.Call.IsInvoke() || call.Call.StaticCallee() != nil {
-					continue
-				}
-				if !p.AnyFrom(call.Call.Value, eng.Plain, func(v ssa.Value) bool { return eng.IsFieldLoad(v, m.T, m.cbField) }) {
-					continue
-				}
-				n++
-				c.CheckAt("LASTCLOSE", m.T+":callback-only-at-zero", call, eng.Cut(r, call.Block(), zero), "the manager callback can run while handles are still open")
-				cleared := false
-				for _, b := range r.Blocks {
-					for _, ins := range b.Instrs {
-						if st, ok := isStoreToField(ins, m.T, m.cbField); ok && eng.IsZeroValue(st.Val) && eng.Dominates(st, call) {
-							cleared = true
-						}
-					}
-				}
-				c.CheckAt("LASTCLOSE", m.T+":callback-at-most-once", call, cleared, "the callback field is not cleared before the callback is invoked: it can run more than once")
+			inv := cbInvocations(c, r, m.T, m.cbField)
+			for _, iv := range inv {
+				c.CheckAt("LASTCLOSE", m.T+":callback-only-at-zero", iv.at, eng.Cut(r, iv.at.Block(), zero), "the manager callback can run while handles are still open")
+				c.CheckAt("LASTCLOSE", m.T+":callback-at-most-once", iv.at, iv.cleared, "the callback field is not cleared before the callback is invoked: it can run more than once")
 			}
-			c.Floor("LASTCLOSE", "callback invocations in the release closure of "+m.T, n, 1)
+			c.Floor("LASTCLOSE", "callback invocations in the release closure of "+m.T, len(inv), 1)
 		}
 	}
 }
@@ -527,6 +584,14 @@ func ruleClosedGuard(c *Ctx, m *multiModel) {
 	// close channel: otherwise goroutines parked in the handle's select keep taking deliveries after the handle was released.
 	closeQ := closeOfField(p, H, closeField)
 	nEff := 0
+	hInv := map[*ssa.Function][]cbInvocation{}
+	for _, cf := range closers {
+		for _, fl := range p.StructFields(H) {
+			if _, isSig := fl.Type().Underlying().(*types.Signature); isSig {
+				hInv[cf] = append(hInv[cf], cbInvocations(c, cf, H, fl.Name())...)
+			}
+		}
+	}
 	for _, cf := range closers {
 		var closeIns []ssa.Instruction
 		for _, b := range cf.Blocks {
@@ -544,8 +609,8 @@ func ruleClosedGuard(c *Ctx, m *multiModel) {
 						eff = "store to " + fl
 					}
 				}
-				if call, ok := ins.(ssa.CallInstruction); ok && !call.Common().IsInvoke() && call.Common().StaticCallee() == nil {
-					if p.AnyFrom(call.Common().Value, eng.Plain, func(x ssa.Value) bool { t, _, _, ok := eng.FieldLoad(x); return ok && t == H }) {
+				for _, iv := range hInv[cf] {
+					if iv.at == ins {
 						eff = "release callback"
 					}
 				}
